@@ -633,6 +633,16 @@ func splitAround(r *hx.Rand, snips []string) []byte {
 
 func main() {
 	c := hx.Start("C37", "Run.Check_C37", 150)
+	// thorough tier: every input goes through the implementation and the oracle, but only a sample of
+	// the random inputs is also replayed on the Coq models (corpus and deterministic families: all)
+	nRand := 0
+	sampled := func(kind string, every int) bool {
+		if !c.Thorough() || !(strings.Contains(kind, "soup") || strings.Contains(kind, "random") || kind == "unescape-random") {
+			return true
+		}
+		nRand++
+		return nRand%every == 0
+	}
 	htmlOne := func(kind string, in []byte, disable, fail bool, pre int) {
 		c.Obs.Evaluations++
 		c.Count(kind)
@@ -649,7 +659,10 @@ func main() {
 		for _, k := range hx.SortedKeys(tab) {
 			ts = append(ts, hx.Tuple(cb([]byte(k)), hx.Z(int64(tab[k]))))
 		}
-		sh, ix := c.Case("CHtml "+hx.B(disable)+" "+hx.List(ts)+" "+preCoq+" "+coqToks(toks)+" "+coqObs(o), rp)
+		sh, ix := -1, 0
+		if sampled(kind, 30) {
+			sh, ix = c.Case("CHtml "+hx.B(disable)+" "+hx.List(ts)+" "+preCoq+" "+coqToks(toks)+" "+coqObs(o), rp)
+		}
 		if o.St == 0 && len(o.Ents) > 0 {
 			c.Nontrivial("h:" + string(in))
 		}
@@ -679,7 +692,7 @@ func main() {
 			c.Violate("goldmark-chunk-not-utf8", fmt.Sprintf("markdown(%q): goldmark cut a valid UTF-8 source into a byte string that is not valid UTF-8", in), -1, 0, rp)
 		}
 		sh, ix := -1, 0
-		if len(in) <= 200 {
+		if len(in) <= 200 && sampled(kind, 50) {
 			sh, ix = c.Case("CMd "+hx.B(valid)+" "+doc+" "+coqObs(o), rp)
 		}
 		if valid && o.St == 1 && strings.Contains(o.Err, "UTF-8") {
@@ -689,7 +702,7 @@ func main() {
 			c.Violate(sig, desc, sh, ix, rp)
 		}
 	}
-	unescOne := func(in []byte) {
+	unescOne := func(kind string, in []byte) {
 		c.Obs.Evaluations++
 		c.Count("unescape")
 		var out []byte
@@ -698,7 +711,9 @@ func main() {
 			c.Violate("unescape-panic", fmt.Sprintf("telegramUnescape(%q) panicked", in), -1, 0, rp)
 			return
 		}
-		c.Case("CUnesc "+cb(in)+" "+cb(out), rp)
+		if sampled(kind, 20) {
+			c.Case("CUnesc "+cb(in)+" "+cb(out), rp)
+		}
 	}
 	var rp struct {
 		What    string
@@ -714,7 +729,7 @@ func main() {
 			fmt.Printf("replay markdown %q -> %+v\n", in, runMarkdown(in))
 			mdOne("replay", in)
 		case "unescape":
-			unescOne(in)
+			unescOne("replay", in)
 		default:
 			o, _ := runHTML(in, rp.Disable, rp.Fail, rp.Pre)
 			fmt.Printf("replay html %q -> %+v\n", in, o)
@@ -736,7 +751,7 @@ func main() {
 		if c.Thorough() || c.Rng.Chance(1, 4) {
 			htmlOne("html-corpus-noescape", []byte(s), true, false, c.Rng.Intn(4))
 		}
-		unescOne([]byte(s))
+		unescOne("unescape-corpus", []byte(s))
 		mdOne("md-from-html-corpus", []byte(s))
 	}
 	for _, s := range mdC {
@@ -783,7 +798,7 @@ func main() {
 				sb.Write(badBytes[c.Rng.Intn(len(badBytes))])
 			}
 		}
-		unescOne(sb.Bytes())
+		unescOne("unescape-random", sb.Bytes())
 	}
 	for i := c.N(280, 100000); i > 0; i-- {
 		mdOne("md-soup", genMD(c.Rng, false))
